@@ -192,6 +192,14 @@ func (pk *PublicKey) ProofToHash(m, proof []byte) (index [32]byte, err error) {
 	// [t]G + [s]([k]G) = [t+ks]G
 	tGx, tGy := curve.ScalarBaseMult(t)
 	ksGx, ksGy := curve.ScalarMult(pk.X, pk.Y, s)
+	// The addition of crypto/secp256k1 is incomplete: for two points with the same x
+	// (the same point, or a point and its inverse) it yields z = 0 and the conversion
+	// back to affine coordinates dereferences nil. The owner of the key can make such
+	// a proof (t = s*k or t = -s*k mod N); an honest proof needs it with negligible
+	// probability only.
+	if tGx.Cmp(ksGx) == 0 {
+		return nilIndex, ErrInvalidVRF
+	}
 	tksGx, tksGy := curve.Add(tGx, tGy, ksGx, ksGy)
 
 	// H = H1(m)
@@ -199,6 +207,9 @@ func (pk *PublicKey) ProofToHash(m, proof []byte) (index [32]byte, err error) {
 	Hx, Hy := H1(m)
 	tHx, tHy := curve.ScalarMult(Hx, Hy, t)
 	sHx, sHy := curve.ScalarMult(uHx, uHy, s)
+	if tHx.Cmp(sHx) == 0 {
+		return nilIndex, ErrInvalidVRF
+	}
 	tksHx, tksHy := curve.Add(tHx, tHy, sHx, sHy)
 
 	//   H2(G, H, [k]G, VRF, [t]G + [s]([k]G), [t]H + [s]VRF)
